@@ -50,6 +50,15 @@ impl Img {
         }
         Img { sz, n, bytes }
     }
+    /// recompute the CRC word after the payload was edited
+    pub fn fix_crc(&mut self) {
+        let total = self.bytes.len();
+        let crc = if total > 68 { crc_cksum(&self.bytes[68..]) } else { crc_cksum(&[]) };
+        let c = crc.to_le_bytes();
+        for i in 0..4.min(total) {
+            self.bytes[i] = c[i];
+        }
+    }
     pub fn frag(&self, i0: usize) -> &[u8] {
         &self.bytes[i0 * self.sz..(i0 + 1) * self.sz]
     }
@@ -332,6 +341,16 @@ pub fn gen_sessions(seed: u64, thorough: bool, o: &mut Out) -> Vec<String> {
             for b in &mut img.bytes[4..68.min(sz * n)] {
                 *b = 0;
             }
+        }
+        if it % 4 >= 2 {
+            // firmware-like tail: the last third of the image is 0xFF padding (received fragments that read like erased flash)
+            let total = sz * n;
+            let from = (total * 2 / 3).max(68.min(total));
+            for b in &mut img.bytes[from..] {
+                *b = 0xFF;
+            }
+            img.fix_crc();
+            o.stat("image-with-ff-padding-tail");
         }
         // fragments lying entirely inside bytes 4..68
         let inside: Vec<usize> = (0..n).filter(|i| i * sz >= 4 && (i + 1) * sz <= 68).collect();
